@@ -15,7 +15,7 @@ def main(argv):
     # ---- 1. model mutants: TLC must report the corresponding property violated
     c = seqplan.MC_CONFIGS["window1"]
     for sl, label in ((6, "window of 6 instead of 5"), (4, "window of 4 instead of 5")):
-        cfg = write_cfg(f"self_seq_{sl}.cfg", seqplan.seq_cfg_text(c, emit=False, search_len=sl))
+        cfg = write_cfg(f"self_seq_{sl}.cfg", seqplan.seq_cfg_text(c, emit=False, search_len=sl, invariants="TypeOK", properties="P_C10"))
         out = tlc("MC_Seq.tla", cfg, workers=8, timeout=600)
         allok &= expect_violation(f"model mutant: {label} -> P_C10", out, "P_C10")
     for backend in ("sqlite", "inmemory"):
